@@ -9,7 +9,7 @@ Local Open Scope Z_scope.
 Lemma insert_by_perm p l : Permutation (p :: l) (insert_by p l).
 Proof.
   induction l as [|q r IH]; cbn [insert_by]; [reflexivity|].
-  destruct (order_of p <? order_of q); [reflexivity|].
+  destruct (order_of q <? order_of p); [|reflexivity].
   rewrite perm_swap. apply perm_skip. exact IH.
 Qed.
 
@@ -62,20 +62,20 @@ Lemma insert_by_HdRel a p l :
 Proof.
   intros Hap Hal. destruct l as [|q r]; cbn [insert_by].
   - constructor. exact Hap.
-  - destruct (order_of p <? order_of q); constructor.
-    + exact Hap.
+  - destruct (order_of q <? order_of p); constructor.
     + inversion Hal; assumption.
+    + exact Hap.
 Qed.
 
 Lemma insert_by_sorted p l : Sorted ole l -> Sorted ole (insert_by p l).
 Proof.
   induction l as [|q r IH]; cbn [insert_by]; intros Hs.
   - repeat constructor.
-  - destruct (Z.ltb_spec (order_of p) (order_of q)) as [Hlt|Hge].
-    + constructor; [exact Hs|]. constructor. unfold ole. lia.
+  - destruct (Z.ltb_spec (order_of q) (order_of p)) as [Hlt|Hge].
     + inversion Hs as [|? ? Hr Hhd]; subst. constructor.
       * apply IH. exact Hr.
       * apply insert_by_HdRel; [unfold ole; lia|exact Hhd].
+    + constructor; [exact Hs|]. constructor. unfold ole. lia.
 Qed.
 
 Lemma isort_sorted l : Sorted ole (isort l).
